@@ -59,6 +59,11 @@ def bv_lemma(name):
     return crc_lemmas.native_check(name, seed=int(os.environ.get("VERIF_SEED", "0") or 0))
 
 
+def by_tier(quick, thorough):
+    import os
+    return thorough if os.environ.get("VERIF_TIER") == "thorough" else quick
+
+
 def refine_as(x, y):
     return None
 
